@@ -187,15 +187,26 @@ def strip_coq_comments(src):
     return "".join(out)
 
 
-def coq_audit():
-    """grep the development for anything that would declare an axiom or switch a
-    kernel check off.  Variable/Hypothesis are allowed only inside a Section."""
+def coq_closure(prop_v):
+    """the .v files a property file depends on (transitively), via coqdep -sort"""
+    rc, out, err = run(["coqdep", "-Q", ".", "Qv", "-sort", prop_v], cwd=COQ, timeout=300)
+    files = [x for x in out.split() if x.endswith(".v")]
+    return [os.path.normpath(os.path.join(COQ, x)) for x in files] if rc == 0 and files else None
+
+
+def coq_audit(prop_v=None):
+    """grep the development (the dependency closure of the property file; the
+    whole directory when it cannot be computed) for anything that would declare
+    an axiom or switch a kernel check off.  Variable/Hypothesis are allowed only
+    inside a Section."""
     bad = []
-    for dp, dn, fn in os.walk(COQ):
-        for f in fn:
-            if not f.endswith(".v"):
+    closure = coq_closure(prop_v) if prop_v else None
+    if closure is None:
+        closure = [os.path.join(dp, f) for dp, dn, fn in os.walk(COQ) for f in fn if f.endswith(".v")]
+    for p in closure:
+        if True:
+            if not os.path.exists(p):
                 continue
-            p = os.path.join(dp, f)
             src = strip_coq_comments(open(p).read())
             depth = 0
             for ln, line in enumerate(src.split("\n"), 1):
@@ -467,7 +478,7 @@ def proof_stage(rep, prop_v, comps, tables=(("Tables", "gentables.cpp"),), extra
     mlog = (elog if not ok_e else "") + mlog
     ok = ok and ok_e
     res["log"] = mlog[-6000:]
-    audit = coq_audit()
+    audit = coq_audit(prop_v)
     if audit:
         res["log"] += "\nAUDIT: forbidden constructs:\n" + "\n".join(audit)
         res["audit"] = audit
